@@ -2,6 +2,7 @@ package main
 
 import (
 	"fmt"
+	"go/token"
 	"go/types"
 	"math"
 	"sort"
@@ -334,4 +335,107 @@ func valueOf(in ssa.Instruction) ssa.Value {
 		return v
 	}
 	return nil
+}
+
+// ---------------------------------------------------------------------------
+// C06: R-INFIX-PRIORITY — added with fix F49.  The writer leaves out the parentheses around an operand exactly
+// when the operand's priority does not exceed what the operator's specifier allows on that side.  The reader
+// has to accept an operator after a left operand under the same two conditions - the term it makes (of the
+// operator's own priority) fits the maximum, and the left operand's priority fits the operator's left side - or
+// the text the writer produces reads back as another term (with op(201, xfx, foo): a^b foo c).  Checked in the
+// Parser function that looks up the infix and postfix classes: every return of an operator with a nil error is
+// under (a) a comparison that involves the operator's priority field and the maximum-priority parameter and
+// (b) a comparison that involves the left result of bindingPriorities and another parameter.
+func ruleInfixPriority(c *Ctx, r *Report) {
+	const rule = "R-INFIX-PRIORITY"
+	desc := "an infix or postfix operator is accepted only if its own priority fits the maximum and its left operand's priority fits its left side"
+	infix := c.method("Parser", "infix")
+	bp := c.method("operator", "bindingPriorities")
+	if infix == nil || bp == nil {
+		r.undecided(rule, "anchor:Parser.infix/bindingPriorities", "-", "locate Parser.infix and operator.bindingPriorities", "not found")
+		return
+	}
+	if len(infix.Params) < 2 {
+		r.undecided(rule, "anchor:Parser.infix/params", c.Pos(infix.Pos()), desc, "no maximum-priority parameter")
+		return
+	}
+	involves := func(v ssa.Value, pred func(ssa.Value) bool) bool {
+		found := false
+		dataSlice(v, func(x ssa.Value) bool {
+			if pred(x) {
+				found = true
+			}
+			return !found
+		})
+		return found
+	}
+	isParam := func(x ssa.Value) (int, bool) {
+		for i, p := range infix.Params {
+			if x == ssa.Value(p) {
+				return i, true
+			}
+		}
+		return 0, false
+	}
+	n := 0
+	eachInstr(infix, func(in ssa.Instruction) {
+		ret, ok := in.(*ssa.Return)
+		if !ok || len(ret.Results) != 2 || !isNilConst(ret.Results[1]) {
+			return
+		}
+		n++
+		key := fmt.Sprintf("%s/accept#%d", fname(infix), n)
+		own, left := false, false
+		for f := range c.factsAt(ret.Block()) {
+			bo, ok := f.cond.(*ssa.BinOp)
+			if !ok {
+				continue
+			}
+			switch bo.Op {
+			case token.LEQ, token.LSS, token.GEQ, token.GTR:
+			default:
+				continue
+			}
+			prio := involves(bo, func(x ssa.Value) bool {
+				ld, ok := x.(*ssa.UnOp)
+				if !ok || ld.Op != token.MUL {
+					return false
+				}
+				fa, ok := ld.X.(*ssa.FieldAddr)
+				return ok && fieldName(fa) == "priority" && isEngNamed(deref(fa.X.Type()), "operator")
+			})
+			lbp := involves(bo, func(x ssa.Value) bool {
+				ex, ok := x.(*ssa.Extract)
+				if !ok || ex.Index != 0 {
+					return false
+				}
+				call, ok := ex.Tuple.(*ssa.Call)
+				return ok && call.Call.StaticCallee() == bp
+			})
+			params := map[int]bool{}
+			dataSlice(bo, func(x ssa.Value) bool {
+				if i, ok := isParam(x); ok {
+					params[i] = true
+				}
+				return true
+			})
+			if prio && len(params) > 0 {
+				own = true
+			}
+			if lbp && len(params) > 0 && !prio {
+				left = true
+			}
+		}
+		switch {
+		case own && left:
+			r.ok(rule, key, c.at(ret), desc, "under a comparison of the operator's priority and one of its left binding priority, each with a parameter", true)
+		case !own:
+			r.bad(rule, key, c.at(ret), desc, "the operator's own priority is not compared with the maximum: an xfx/xfy/xf operator one level too high is accepted (a = b = c reads as a = (b = c))")
+		default:
+			r.bad(rule, key, c.at(ret), desc, "the left operand's priority is not compared with the operator's left side: the parentheses the writer rightly omits are not implied on reading")
+		}
+	})
+	if n == 0 {
+		r.undecided(rule, "anchor:accept", c.Pos(infix.Pos()), desc, "no successful return found in Parser.infix")
+	}
 }
